@@ -9,5 +9,7 @@ TECH = {
  "C05": "SSA must-pass-through clean-up obligations, type-driven table/delete completeness over the static call graph, close-after-removal ordering (static analysis)",
  "C12": "freshness/aliasing analysis of dict writes + disclosure guard obligations + whole-value use audit of session details (static analysis)",
  "C13": "SSA edge-cut guard and must-pass-through obligations on the cancel state machine and timeout arms (static analysis)",
+ "C09": "SSA edge-cut guard obligations on the attach path, who-may-call tables, challenge-to-verification dataflow + call-graph reachability of crypto/rand (static analysis)",
+ "C10": "must-pass-through authorization gate (edge cut), who-may-call, sibling type-switch agreement (static analysis)",
  "C03": "SSA edge-cut guard obligations, switch/case-set agreement, INVOCATION provenance (static analysis)",
 }
